@@ -857,6 +857,183 @@ fn real_sequences() -> Vec<(RCase, Vec<(Query, Value)>)> {
     out
 }
 
+// ------------------------------------------------------------------------------------------ cost model variants
+// Reachability does not depend on costs: with CostAggregation::Mul (and Sum as a control) and a vehicle cost rate /
+// weight that makes the feature cost of some edges NEGATIVE before the strictly-positive floor, every edge stays
+// traversable.  The REAL CostModel is built with these settings; the Coq search model has no such cost model, so these
+// cases carry no M line (said so in the check); S = reachb / reach_set on the graph.
+
+#[derive(Clone, Copy, Debug, PartialEq)]
+enum RateKind {
+    Offset(f64),
+    Factor(f64),
+    Weight(f64),
+}
+fn rate_name(r: RateKind) -> String {
+    match r {
+        RateKind::Offset(x) => format!("offset:{}", x),
+        RateKind::Factor(x) => format!("factor:{}", x),
+        RateKind::Weight(x) => format!("weight:{}", x),
+    }
+}
+/// the feature cost of an edge before the floor
+fn rated(r: RateKind, c: f64) -> f64 {
+    match r {
+        RateKind::Offset(x) => c + x,
+        RateKind::Factor(x) => c * x,
+        RateKind::Weight(x) => c * x,
+    }
+}
+
+fn run_with_cost_model(w: &World, q: &Query, rate: RateKind, mul: bool) -> Outcome {
+    use routee_compass_core::model::cost::cost_aggregation::CostAggregation;
+    use routee_compass_core::model::cost::cost_model::CostModel;
+    use routee_compass_core::model::cost::vehicle::vehicle_cost_rate::VehicleCostRate;
+    use std::collections::HashMap;
+    let (w2, q2) = (w.clone(), q.clone());
+    let (tx, rx) = std::sync::mpsc::channel();
+    std::thread::spawn(move || {
+        let o = catch(move || {
+            let mut si = build_instance(&w2);
+            let (weight, vr) = match rate {
+                RateKind::Offset(x) => (1.0, VehicleCostRate::Offset { offset: x }),
+                RateKind::Factor(x) => (1.0, VehicleCostRate::Factor { factor: x }),
+                RateKind::Weight(x) => (x, VehicleCostRate::Raw),
+            };
+            let cm = CostModel::new(
+                Arc::new(HashMap::from([(String::from(FEATURE), weight)])),
+                Arc::new(HashMap::from([(String::from(FEATURE), vr)])),
+                Arc::new(HashMap::new()),
+                if mul { CostAggregation::Mul } else { CostAggregation::Sum },
+                si.state_model.clone(),
+            );
+            match cm {
+                Ok(cm) => {
+                    si.cost_model = Arc::new(cm);
+                    run_on_instance(&si, &q2)
+                }
+                Err(_) => Outcome::status_only("err:build"),
+            }
+        })
+        .unwrap_or_else(|_| Outcome::status_only("Panic"));
+        let _ = tx.send(o);
+    });
+    match rx.recv_timeout(std::time::Duration::from_millis(WATCHDOG_MS)) {
+        Ok(o) => o,
+        Err(_) => Outcome::status_only("Hang"),
+    }
+}
+
+fn add_cost_case(cx: &mut Ctx, family: &str, w: &World, q: &Query, rate: RateKind, mul: bool) {
+    let id = cx.st.next_id();
+    let o = run_with_cost_model(w, q, rate, mul);
+    let text = summary(q, &o);
+    // the world S sees: the same graph WITHOUT a cost table (all zero: S then compares status, route and the tree's
+    // vertex set, not the labels -- the reported state labels are distances, the search minimises the rated cost)
+    let mut ws = w.clone();
+    ws.cost = vec![0.0; w.cost.len()];
+    ws.h = vec![];
+    let rated_costs: Vec<f64> = w.cost.iter().map(|c| rated(rate, *c)).collect();
+    let terms = vec![term_s5(id, &ws, q, &o, &text)];
+    let desc = json!({"id": id, "family": family, "world": world_to_json(w), "query": query_to_json(q), "no_model_line": true,
+                      "cost_model": {"rate": rate_name(rate), "aggregation": if mul { "mul" } else { "sum" },
+                                     "rate_kind": match rate { RateKind::Offset(_) => "offset", RateKind::Factor(_) => "factor", RateKind::Weight(_) => "weight" },
+                                     "rate_bits": fbits(match rate { RateKind::Offset(x) | RateKind::Factor(x) | RateKind::Weight(x) => x })},
+                      "impl_short": text.chars().take(200).collect::<String>()});
+    let st = &mut cx.st;
+    st.count(&format!("family:{}", family.split('#').next().unwrap_or(family)));
+    st.count(&format!("status:{}", o.status));
+    st.count(&format!("cost_aggregation:{}", if mul { "mul" } else { "sum" }));
+    st.count("no_model_line_by_design");
+    if rated_costs.iter().any(|c| *c < 0.0) {
+        st.count("edge_with_negative_feature_cost");
+    }
+    let rl = o.routes.iter().map(|r| r.len()).max().unwrap_or(0);
+    let ts = o.trees.iter().map(|t| t.len()).max().unwrap_or(0);
+    if o.status == "nopath" || (q.target.is_none() && ts >= 2) || rl >= 2 {
+        st.mark_nontrivial(&format!("{}|{}|{}|{}", world_to_json(w), query_to_json(q), rate_name(rate), mul));
+    }
+    st.case(terms, vec![format!("I {} {}", id, text)], desc);
+}
+
+fn cost_model_cases() -> Vec<(String, World, Query, RateKind, bool)> {
+    let mut out = vec![];
+    for (rate, tag) in [(RateKind::Offset(-2.0), "short_connector_below_offset"), (RateKind::Factor(-1.0), "negative_factor"), (RateKind::Weight(-0.5), "negative_weight"), (RateKind::Offset(-0.25), "offset_all_positive")] {
+        for mul in [true, false] {
+            for dir in [Dir::Forward, Dir::Reverse] {
+                for alg in [Alg::Dijkstra, Alg::AStar(Some(1.0))] {
+                    // two parts joined by the SHORT connector 1 -> 2 (cost 0.5); everything else costs >= 3
+                    let es: Vec<(usize, usize)> = [(0, 1), (1, 0), (1, 2), (2, 3), (3, 2), (3, 4)].iter().map(|(a, b)| if dir == Dir::Reverse { (*b, *a) } else { (*a, *b) }).collect();
+                    let mut w = World::new(6, es, vec![3.0, 3.5, 0.5, 4.0, 4.5, 5.0]);
+                    if alg != Alg::Dijkstra {
+                        w.h = vec![3.0, 2.5, 1.0, 0.5, 0.0, 0.0];
+                    }
+                    for (qn, s, t) in [("destination", 0usize, Some(4usize)), ("behind_connector", 0, Some(2)), ("tree", 0, None), ("unreachable", 0, Some(5))] {
+                        out.push((format!("cost_model_{}#{}:{}", tag, if mul { "mul" } else { "sum" }, qn), w.clone(), vq(alg, dir, s, t), rate, mul));
+                    }
+                    out.push((format!("cost_model_{}#{}:edge_oriented", tag, if mul { "mul" } else { "sum" }), w.clone(), eq(alg, dir, 0, Some(5)), rate, mul));
+                }
+            }
+        }
+    }
+    out
+}
+
+// ------------------------------------------------------------------------------------------ hub vertices
+// A star: hub 0 with `spokes` incident edges in the search direction (70000 > 65536).  Too large for the Coq runner:
+// no M line, and the S line is the expectation stated by the harness from the property (every spoke is one permitted
+// edge away: the tree holds every spoke, every sampled spoke gets a route) -- a summary-fact oracle, not Coq-evaluated.
+fn add_star_case(cx: &mut Ctx, spokes: usize, dir: Dir) {
+    let id = cx.st.next_id();
+    let edges: Vec<(usize, usize)> = (0..spokes).map(|i| if dir == Dir::Forward { (0, i + 1) } else { (i + 1, 0) }).collect();
+    let cost: Vec<f64> = (0..spokes).map(|i| 1.0 + (i % 97) as f64 / 64.0).collect();
+    let w = World::new(spokes + 1, edges, cost);
+    // both members of a few pairs of edge positions that differ by 65536, the first, the last, one in the middle
+    let mut sample: Vec<usize> = vec![1, spokes, spokes / 2];
+    for k in 0..4 {
+        if k + 65536 < spokes {
+            sample.push(k + 1);
+            sample.push(k + 65536 + 1);
+        }
+    }
+    sample.sort();
+    sample.dedup();
+    let (w2, sample2) = (w.clone(), sample.clone());
+    let (tx, rx) = std::sync::mpsc::channel();
+    std::thread::spawn(move || {
+        let r = catch(move || {
+            let si = build_instance(&w2);
+            let tree = run_on_instance(&si, &vq(Alg::Dijkstra, dir, 0, None));
+            let tree_size = tree.trees.first().map(|t| t.len()).unwrap_or(0);
+            let mut routed = 0;
+            let mut nopath = 0;
+            let mut other = 0;
+            for t in sample2.iter() {
+                let o = run_on_instance(&si, &vq(if t % 2 == 0 { Alg::Dijkstra } else { Alg::AStar(Some(1.0)) }, dir, 0, Some(*t)));
+                if o.is_ok() && o.routes.len() == 1 && o.routes[0].len() == 1 && o.routes[0][0].edge + 1 == *t {
+                    routed += 1;
+                } else if o.status == "nopath" {
+                    nopath += 1;
+                } else {
+                    other += 1;
+                }
+            }
+            format!("star spokes={} tree_status={} tree_size={} sampled_spokes_with_their_route={}/{} nopath={} other={}", w2.n - 1, tree.status, tree_size, routed, sample2.len(), nopath, other)
+        })
+        .unwrap_or_else(|_| "Panic".to_string());
+        let _ = tx.send(r);
+    });
+    let text = rx.recv_timeout(std::time::Duration::from_millis(60000)).unwrap_or_else(|_| "Hang".to_string());
+    let expected = format!("star spokes={} tree_status=Ok tree_size={} sampled_spokes_with_their_route={}/{} nopath=0 other=0", spokes, spokes, sample.len(), sample.len());
+    let terms = vec![format!("line \"S\"%string {}%Z {}", id, coq_string(&expected))];
+    let desc = json!({"id": id, "family": "hub_star", "star": {"spokes": spokes, "dir": if dir == Dir::Forward { "forward" } else { "reverse" }}, "no_model_line": true,
+                      "oracle": "summary facts stated by the harness from the property (not Coq-evaluated)", "impl_short": text});
+    cx.st.count("family:hub_star");
+    cx.st.count("no_model_line_by_design");
+    cx.st.mark_nontrivial(&format!("star|{}|{:?}", spokes, dir));
+    cx.st.case(terms, vec![format!("I {} {}", id, text)], desc);
+}
+
 fn rand_costs(rng: &mut Rng, m: usize) -> Vec<f64> {
     if rng.chance(2, 3) {
         gen_costs(rng, m, CostFamily::TieFree)
@@ -1004,6 +1181,22 @@ fn main() {
             cx.st.finish();
             std::process::exit(0);
         }
+        if !case["star"].is_null() {
+            add_star_case(&mut cx, case["star"]["spokes"].as_u64().unwrap() as usize, if case["star"]["dir"] == "reverse" { Dir::Reverse } else { Dir::Forward });
+            cx.st.finish();
+            std::process::exit(0);
+        }
+        if !case["cost_model"].is_null() {
+            let x = funbits(case["cost_model"]["rate_bits"].as_str().unwrap());
+            let rate = match case["cost_model"]["rate_kind"].as_str().unwrap_or("offset") {
+                "factor" => RateKind::Factor(x),
+                "weight" => RateKind::Weight(x),
+                _ => RateKind::Offset(x),
+            };
+            add_cost_case(&mut cx, "replay", &world_from_json(&case["world"]), &query_from_json(&case["query"]), rate, case["cost_model"]["aggregation"] == "mul");
+            cx.st.finish();
+            std::process::exit(0);
+        }
         if !case["cfg"].is_null() {
             let rc = rcase_from_json(case);
             add_rcase(&mut cx, &rc, &a.out);
@@ -1029,6 +1222,12 @@ fn main() {
     }
     for rc in real_world_cases(thorough) {
         add_rcase(&mut cx, &rc, &a.out);
+    }
+    for (spokes, dir) in [(70000usize, Dir::Forward), (70000, Dir::Reverse), (65537, Dir::Forward), (65536, Dir::Reverse)] {
+        add_star_case(&mut cx, spokes, dir);
+    }
+    for (name, w, q, rate, mul) in cost_model_cases() {
+        add_cost_case(&mut cx, &name, &w, &q, rate, mul);
     }
     for (name, items) in plain_sequences() {
         add_plain_sequence(&mut cx, &name, &items, None);
